@@ -1264,6 +1264,16 @@ func verifyFuncVariant(prog *Prog, specs *Specs, fn *ssa.Function, variant strin
 			} else {
 				r = decide(o.Name, q, timeout, tier == "thorough")
 			}
+			if r.Status == "proved" && o.Kind == "assert" {
+				// vacuity guard: a site assertion is placed where its author expects execution to
+				// arrive; if the path condition itself is unsatisfiable under the engine's
+				// assumptions the "proof" says nothing and is not counted
+				cover := pre + x.strLitDeclsFor(pre) + x.instances(o.Prefix) + "(assert " + o.Cond + ")\n"
+				if c := solveOneCtx(context.Background(), o.Name+".cover", instVariant(cover), 10, "z3-new-5.1.0"); c.Status == "unsat" {
+					r.Status = "unknown"
+					r.Detail = "vacuous: the site is unreachable under the engine's assumptions (path condition unsatisfiable), nothing is proved about it"
+				}
+			}
 			r.Kind, r.Site, r.Func, r.Order = o.Kind, o.Site, o.Func, i
 			out[i] = r
 		}(i)
